@@ -308,6 +308,9 @@ def _handler_factory():
 # other session stores an application may plug in (handler.session_manager = ...)
 # ---------------------------------------------------------------------------
 STORE_KINDS = ["recording-store", "rows-as-dicts:fresh-record-on-every-read", "in-memory-subclass:deep-copies-on-read"]
+# stores whose generate_session_id (the documented extension point) REPEATS ids: used by the two-handshake part only
+REPEATING_STORES = ["in-memory-subclass:constant-session-id", "in-memory-subclass:ids-cycle-through-2-values"]
+PRE_VERSIONS: List[Any] = ["2025-03-26", "2024-10-07", "2099-01-01", "latest", None]   # versions of sessions restored through the store API
 
 
 def make_store(kind: str):
@@ -384,6 +387,18 @@ def make_store(kind: str):
                 return self.rows.pop(session_id, None) is not None
 
         return RowStore()
+
+    if kind in REPEATING_STORES:
+        class RepeatingIds(InMemorySessionManager):
+            def __init__(self):
+                super().__init__()
+                self._k = 0
+
+            def generate_session_id(self):
+                self._k += 1
+                return "the-one-id" if kind.endswith("constant-session-id") else f"id-{self._k % 2}"
+
+        return RepeatingIds()
 
     class CopyingStore(InMemorySessionManager):
         """The built-in store, handing out deep copies on every read."""
@@ -631,6 +646,10 @@ def run_twostep(cfg) -> Dict[str, Any]:
     v1, v2 = vals[cfg["a"]], vals[cfg["b"]]
     carry = CARRY[cfg["carry"]]
     handler = _handler_factory()()
+    store_kind = REPEATING_STORES[cfg["store"]] if cfg.get("store") is not None else None
+    if store_kind:
+        handler.session_manager = make_store(store_kind)
+    pre = cfg.get("pre")          # instead of a first initialize: a session restored through the store API with this version
     counters: Dict[str, int] = {}
     viol: List[dict] = []
     step = {"n": "first-initialize"}
@@ -639,6 +658,10 @@ def run_twostep(cfg) -> Dict[str, Any]:
         counters[k] = counters.get(k, 0) + n
 
     def bad(sig, msg, wire):
+        if store_kind:
+            sig = dict(sig, store=store_kind)
+        if pre is not None:
+            sig = dict(sig, carried_session_was="restored-through-the-store-api", restored_version=request_kind(PRE_VERSIONS[pre], supported))
         viol.append({"sig": dict(sig, step=step["n"], carried=carry if step["n"] != "first-initialize" else "n/a"),
                      "msg": f"{step['n']} (second one carries: {carry}; first requested {v1!r}): {msg}; "
                             f"input={json.dumps(wire, ensure_ascii=True)}"})
@@ -648,7 +671,11 @@ def run_twostep(cfg) -> Dict[str, Any]:
     async def main():
         w1 = build_init(v1, TWO_CLIENTS[0])
         w1["id"] = 7
-        r1 = await judge_step(handler, parse_message, supported, w1, v1, count, bad)
+        if pre is not None:
+            sid0 = handler.session_manager.create_session({"name": "restored"}, PRE_VERSIONS[pre])
+            r1 = {"tag": "restored", "sid": sid0, "answered": PRE_VERSIONS[pre], "resp": None}
+        else:
+            r1 = await judge_step(handler, parse_message, supported, w1, v1, count, bad)
         step["n"] = "second-initialize"
         carried = None if carry == "no-session-id" else r1["sid"] if carry == "first-session-id" else "never-issued-session-id"
         w2 = build_init(v2, TWO_CLIENTS[1])
@@ -710,7 +737,13 @@ def run_twostep(cfg) -> Dict[str, Any]:
 
 def twostep_configs(supported: List[str]) -> List[Dict[str, Any]]:
     n = len(twostep_values(supported))
-    return [{"part": "twostep", "a": a, "b": b, "carry": k} for a in range(n) for b in range(n) for k in range(len(CARRY))]
+    out = [{"part": "twostep", "a": a, "b": b, "carry": k} for a in range(n) for b in range(n) for k in range(len(CARRY))]
+    # two handshakes on a store whose ids repeat: the record under the repeated id is the LATER handshake's
+    out += [{"part": "twostep", "a": a, "b": b, "carry": k, "store": st} for st in range(len(REPEATING_STORES))
+            for a in range(n) for b in range(n) for k in (0, 1)]
+    # an initialize arriving on a session that was restored through the store API (with any version on record)
+    out += [{"part": "twostep", "a": 0, "b": b, "carry": 1, "pre": p} for p in range(len(PRE_VERSIONS)) for b in range(n)]
+    return out
 
 
 # ---------------------------------------------------------------------------
@@ -1331,7 +1364,9 @@ def run(tier: str, only=None) -> core.Result:
         "handshake must be the answered version for every store.  Two-step: every ordered pair of 12 requested values (one or more per "
         "class: each supported, future / past / non-calendar date, word, supported+newline, Arabic-Indic look-alike, int, null, "
         "absent) as two initialize requests on ONE handler, the second carrying no session id / the first one's / a never-issued "
-        "one; the session id returned by each initialize must record the version answered by that initialize.  Sequences: every "
+        "one; the session id returned by each initialize must record the version answered by that initialize; the same pairs on stores "
+        "whose generate_session_id repeats ids (constant, cycling through two); an initialize carrying the id of a session restored "
+        "through the store API with a supported / older / future / word / null version on record, for each of the 12 requested values.  Sequences: every "
         "sequence of length " + ("5" if tier == "quick" else "6") + " over {initialize with each supported version or 2099-01-01 (a new clientInfo "
         "name each time), delete_session of the 1st/2nd/3rd live session, cleanup_expired with the limit that ages out exactly "
         "the oldest, clear_all_sessions} on one ProtocolHandler and on one MCPServer, stubbed clock; after EVERY step every live "
